@@ -332,4 +332,135 @@ theorem generated_txn_sizes :
     Generated.defaultReadSize = 1024 := by
   constructor <;> rfl
 
+/-! ### reading exactly the reply: `_recv` of the transaction manager on a serial transport
+
+The size predictions above become reads here.  `recvReply` is the model of `ModbusTransactionManager._recv`
+(compared with the real method call by call in C08/C13/C14: the sizes asked of the transport are part of the
+observation). -/
+
+section exact_read
+open Pymodbus.Txn
+
+theorem takeBytes_append (f rest : Bytes) (n : Net) (h : n.inbuf = f ++ rest) :
+    takeBytes f.length n = (f, { n with inbuf := rest, rx := n.rx ++ f, reads := n.reads + 1 }) := by
+  simp [takeBytes, h]
+
+/-- **the client reads exactly the frame** (serial transports, not a `full` read): when the bytes of a reply frame `f`
+    are what arrives — followed by anything — and `f` is a NORMAL reply (function code < 0x80) of the predicted length,
+    `_recv` returns exactly `f`: two reads, `min_size` then the rest, nothing beyond the checksum is asked for -/
+theorem recv_exact_normal (cfg : Cfg) (hs : cfg.transport = .serial) (hne : cfg.framer ≠ .tcp)
+    (f rest : Bytes) (n : Net) (hin : n.inbuf = f ++ rest) (hmode : n.mode ≠ .oserror)
+    (hlen : minSize cfg.framer < f.length) (fc : Int)
+    (hfc : peekFc cfg.framer (f.take (minSize cfg.framer)) = some fc) (hnormal : fc < 128) :
+    recvReply cfg (some (Int.ofNat f.length)) false n =
+      (some f, { n with inbuf := rest, rx := n.rx ++ f, reads := n.reads + 2 }) := by
+  have hm : 0 < minSize cfg.framer := by cases cfg.framer <;> simp [minSize]
+  obtain ⟨k, hk⟩ : ∃ k, k = minSize cfg.framer := ⟨_, rfl⟩
+  rw [← hk] at hm hlen hfc
+  have hsplit : f = f.take k ++ f.drop k := (List.take_append_drop k f).symm
+  have htl : (f.take k).length = k := by simp; omega
+  have hin1 : n.inbuf = f.take k ++ (f.drop k ++ rest) := by rw [hin, ← List.append_assoc, List.take_append_drop]
+  have hto : ∀ m : Nat, (Int.ofNat m).toNat = m := fun _ => rfl
+  unfold recvReply
+  simp only [Bool.false_eq_true, if_false, ← hk]
+  have h1 : recvBytes cfg.transport (some (Int.ofNat k)) n =
+      (some (f.take k), { n with inbuf := f.drop k ++ rest, rx := n.rx ++ f.take k, reads := n.reads + 1 }) := by
+    rw [hs]; simp only [recvBytes]
+    have : ¬ (Int.ofNat k ≤ 0) := by simp; omega
+    simp only [this, if_false, hmode, hto]
+    have := takeBytes_append (f.take k) (f.drop k ++ rest) n hin1
+    rw [htl] at this; rw [this]
+  rw [h1]
+  simp only [htl, ne_eq, not_true_eq_false, if_false, hfc]
+  have hrest : restSize cfg.framer (some (Int.ofNat f.length)) (f.take k) fc = some (Int.ofNat (f.drop k).length) := by
+    unfold restSize; simp only [hnormal, if_true, hne, if_false, Option.map_some, ← hk]
+    congr 1; simp; omega
+  rw [hrest, hs]; simp only [recvBytes]
+  have hpos : ¬ (Int.ofNat (f.drop k).length ≤ 0) := by simp; omega
+  simp only [hpos, if_false, hmode, hto]
+  have := takeBytes_append (f.drop k) rest { n with inbuf := f.drop k ++ rest, rx := n.rx ++ f.take k, reads := n.reads + 1 } rfl
+  rw [this]
+  simp only [List.append_assoc, List.take_append_drop]
+  
+
+
+/-- ... and when `f` is an EXCEPTION reply (function code ≥ 0x80, the exception ADU length of the framing), whatever
+    length was predicted for the normal reply: exactly `f` is read, the port is not asked for the bytes of the normal
+    reply that will never come -/
+theorem recv_exact_exception (cfg : Cfg) (hs : cfg.transport = .serial)
+    (f rest : Bytes) (n : Net) (hin : n.inbuf = f ++ rest) (hmode : n.mode ≠ .oserror)
+    (hlen : f.length = excLen cfg.framer) (fc : Int)
+    (hfc : peekFc cfg.framer (f.take (minSize cfg.framer)) = some fc) (hexc : ¬ fc < 128) (expected : Option Int) :
+    recvReply cfg expected false n =
+      (some f, { n with inbuf := rest, rx := n.rx ++ f, reads := n.reads + 2 }) := by
+  have hm : 0 < minSize cfg.framer ∧ minSize cfg.framer < excLen cfg.framer := by cases cfg.framer <;> simp [minSize, excLen]
+  obtain ⟨k, hk⟩ : ∃ k, k = minSize cfg.framer := ⟨_, rfl⟩
+  rw [← hk] at hm hfc
+  have htl : (f.take k).length = k := by simp; omega
+  have hin1 : n.inbuf = f.take k ++ (f.drop k ++ rest) := by rw [hin, ← List.append_assoc, List.take_append_drop]
+  have hto : ∀ m : Nat, (Int.ofNat m).toNat = m := fun _ => rfl
+  unfold recvReply
+  simp only [Bool.false_eq_true, if_false, ← hk]
+  have h1 : recvBytes cfg.transport (some (Int.ofNat k)) n =
+      (some (f.take k), { n with inbuf := f.drop k ++ rest, rx := n.rx ++ f.take k, reads := n.reads + 1 }) := by
+    rw [hs]; simp only [recvBytes]
+    have : ¬ (Int.ofNat k ≤ 0) := by simp; omega
+    simp only [this, if_false, hmode, hto]
+    have := takeBytes_append (f.take k) (f.drop k ++ rest) n hin1
+    rw [htl] at this; rw [this]
+  rw [h1]
+  simp only [htl, ne_eq, not_true_eq_false, if_false, hfc]
+  have hrest : restSize cfg.framer expected (f.take k) fc = some (Int.ofNat (f.drop k).length) := by
+    unfold restSize; simp only [hexc, if_false, ← hk]
+    congr 1; simp; omega
+  rw [hrest, hs]; simp only [recvBytes]
+  have hpos : ¬ (Int.ofNat (f.drop k).length ≤ 0) := by simp; omega
+  simp only [hpos, if_false, hmode, hto]
+  have := takeBytes_append (f.drop k) rest { n with inbuf := f.drop k ++ rest, rx := n.rx ++ f.take k, reads := n.reads + 1 } rfl
+  rw [this]
+  simp only [List.append_assoc, List.take_append_drop]
+
+/-- the designed exception to exactness: a `full` read (the unit is on the list of units whose previous transaction got
+    nothing, or the transport is a datagram socket) is ONE read of the predicted normal length, whatever arrives -/
+theorem recv_full_is_one_read (cfg : Cfg) (expected : Option Int) (n : Net) :
+    recvReply cfg expected true n = recvBytes cfg.transport expected n := rfl
+
+/-- Non-vacuity: an RTU exception reply (unit 1, 0x83, code 2, CRC) followed by a stray byte, while a 25-byte normal reply
+    was predicted: exactly the five bytes of the frame are read -/
+example :
+    let n : Net := { inbuf := [1, 0x83, 2, 0xC0, 0xF1, 7] }
+    (recvReply { transport := .serial, framer := .rtu, retries := 3, retryOnEmpty := false, retryOnInvalid := false, broadcastEnable := false } (some 25) false n).1 = some [1, 0x83, 2, 0xC0, 0xF1] ∧
+    (recvReply { transport := .serial, framer := .rtu, retries := 3, retryOnEmpty := false, retryOnInvalid := false, broadcastEnable := false } (some 25) false n).2.inbuf = [7] := by decide
+
+/-! the bookkeeping that selects a `full` read: `_no_response_devices` after an attempt -/
+
+/-- a unit is on the list of silent units after an attempt exactly when that attempt read nothing -/
+theorem noteResp_self (unit : Nat) (resp : Bytes) (l : List Nat) (hl : l.Nodup) :
+    unit ∈ noteResp unit resp l ↔ resp = [] := by
+  unfold noteResp
+  by_cases hr : resp = []
+  · by_cases hm : unit ∈ l <;> simp [hr, hm]
+  · by_cases hm : unit ∈ l
+    · simp [hr, hm, hl.mem_erase_iff]
+    · simp [hr, hm]
+
+theorem noteResp_other (unit u : Nat) (resp : Bytes) (l : List Nat) (hu : u ≠ unit) :
+    u ∈ noteResp unit resp l ↔ u ∈ l := by
+  unfold noteResp
+  split
+  · simp [hu]
+  · split
+    · rw [List.mem_erase_of_ne hu]
+    · rfl
+
+theorem noteResp_nodup (unit : Nat) (resp : Bytes) (l : List Nat) (hl : l.Nodup) : (noteResp unit resp l).Nodup := by
+  unfold noteResp
+  split
+  · rename_i h; exact List.nodup_append.mpr ⟨hl, by simp, by intro a ha b hb; simp at hb; subst hb; intro h'; subst h'; exact h.2 ha⟩
+  · split
+    · exact hl.erase _
+    · exact hl
+
+end exact_read
+
 end Pymodbus.Props.C14
